@@ -249,6 +249,10 @@ func (Sim) Run(raw json.RawMessage, prop string, keep bool) (res simfw.Result) {
 		fmt.Fprintf(h, "%d>%d|", t.FromSite, t.ToSite)
 		if t.FromSite >= 0 {
 			inLib++
+			if t.ToSite >= 0 {
+				// one caller stopped at site A while another resumes at site B
+				res.Cover = append(res.Cover, uint64(t.FromSite)<<32|uint64(uint32(t.ToSite)))
+			}
 		}
 		if t.From >= 0 && t.FromSite >= 0 {
 			overlap[[2]int{t.From, t.To}] = true
